@@ -13,6 +13,9 @@ import (
 	"fmt"
 	"strings"
 
+	"github.com/gcash/bchd/chaincfg"
+	"github.com/gcash/bchutil"
+
 	al "verif/harness/cmd/c01/addrlib"
 	"verif/harness/internal/vh"
 )
@@ -475,6 +478,194 @@ func malformed(r *vh.RNG) {
 	}
 }
 
+// legacyConstructed: Base58Check strings that sampling does not reach.
+// (a) one character replaced by a multi-byte code point with the same low eight bits: Base58 knows no
+//     normalisation at all, so every such string must be refused;
+// (b) bodies solved for so that the digit string has a run of ten or more zero digits ('1') in its interior.
+func legacyConstructed(r *vh.RNG) {
+	for net := range al.Nets {
+		p := al.Nets[net].P
+		for ki, id := range []byte{p.LegacyPubKeyHashAddrID, p.LegacyScriptHashAddrID} {
+			s := al.RefBase58Check(id, r.Bytes(20))
+			for _, pos := range []int{0, 1, len(s) / 2, len(s) - 1} {
+				for ai, alias := range al.RuneAliases(s, pos) {
+					var o al.Obs
+					if net < 2 && ai < 3 && !cfg.Search {
+						o = ctx.DecCase(net, alias, "legacy:rune-alias")
+					} else {
+						_, o = al.Decode(alias, net)
+					}
+					rep.Count("legacy:rune-alias", alias, true)
+					rp := map[string]interface{}{"net": p.Name, "genuine_string": s, "string": alias, "string_hex": vh.Hex([]byte(alias)), "position": pos, "observed": o.JSON()}
+					canonical(alias, net, o, "legacy", rp)
+					if o.Cls == 0 {
+						rep.Violate("C02:canonical:nonascii", "a string containing a non-ASCII byte was accepted", rp)
+					}
+				}
+			}
+			for _, run := range [][2]int{{10, 20}, {20, 30}, {10, 30}, {9, 19}, {11, 21}, {6, 32}} {
+				body := al.ZeroDigitRunBody(r, id, 21, run[0], run[1])
+				if body == nil {
+					continue
+				}
+				s := al.RefBase58Check(id, body[1:])
+				var o al.Obs
+				if ki == 0 && !cfg.Search {
+					o = ctx.DecCase(net, s, "legacy:zero-digit-run")
+				} else {
+					_, o = al.Decode(s, net)
+				}
+				rep.Count("legacy:zero-digit-run", s, true)
+				rp := map[string]interface{}{"net": p.Name, "version_byte": id, "payload": vh.Hex(body[1:]), "string": s, "zero_digits": fmt.Sprint(run), "observed": o.JSON()}
+				canonical(s, net, o, "legacy", rp)
+				if o.Cls != 0 || !bytes.Equal(o.Payload, body[1:]) || o.Enc != s {
+					rep.Violate("C02:legacy:accept", "Base58Check string accepted/rejected against 'payload of 20 bytes and a registered version byte'", rp)
+				}
+			}
+		}
+	}
+}
+
+// histories: what a call returns may depend on its arguments only, not on what was done with earlier results.
+// (a) a decoded public-key address is changed through its public setter SetFormat; decoding the same string
+//     again must still give the format of the string;
+// (b) one Params VALUE is overwritten in place with each network in turn (same pointer, other contents).
+func histories(r *vh.RNG) {
+	for k := 0; k < cfg.Scale(2, 6); k++ {
+		u, c, h := al.RandomKey(r)
+		net := k % len(al.Nets)
+		for fi, ser := range [][]byte{u, c, h} {
+			s := hex.EncodeToString(ser)
+			for _, other := range []bchutil.PubKeyFormat{bchutil.PKFUncompressed, bchutil.PKFCompressed, bchutil.PKFHybrid} {
+				a1, o1 := al.Decode(s, net)
+				if pk, ok := a1.(*bchutil.AddressPubKey); ok && pk != nil {
+					pk.SetFormat(other)
+				}
+				_, o2 := al.Decode(s, net)
+				rep.Count("history:setformat", fmt.Sprintf("%s/%d/%d", s, net, other), true)
+				rp := map[string]interface{}{"net": al.Nets[net].Name, "string": s, "history": fmt.Sprintf("a := DecodeAddress(s); a.SetFormat(%d); DecodeAddress(s)", other),
+					"first": o1.JSON(), "second": o2.JSON()}
+				canonical(s, net, o2, "pubkey", rp)
+				if o1.Cls != 0 || o2.Cls != 0 || o2.Kind != 5 || o2.Fmt != []int{0, 1, 2}[fi] || o2.Str != s || !bytes.Equal(o2.Payload, ser) {
+					rep.Violate("C02:canonical:pubkey", "decoding a public-key string after an earlier result was modified through SetFormat does not reproduce the string", rp)
+				}
+			}
+		}
+	}
+	var active chaincfg.Params
+	for home := range al.Nets {
+		p := al.Nets[home].P
+		h := r.Bytes(20)
+		strs := []string{al.RefCashAddr(p.CashAddressPrefix, 0, h), p.CashAddressPrefix + ":" + al.RefCashAddr(p.CashAddressPrefix, 1, h)}
+		if p.SlpAddressPrefix != "" {
+			strs = append(strs, p.SlpAddressPrefix+":"+al.RefCashAddr(p.SlpAddressPrefix, 0, h))
+		}
+		for si, s := range strs {
+			for step := 0; step <= len(al.Nets); step++ {
+				net := (home + step) % len(al.Nets)
+				q := al.Nets[net].P
+				active = *q // same variable, other contents
+				var a bchutil.Address
+				var err error
+				var o al.Obs
+				if pn, msg := vh.Catch(func() { a, err = bchutil.DecodeAddress(s, &active) }); pn {
+					o = al.Obs{Cls: 99, Err: "panic: " + msg}
+				} else {
+					o = al.Observe(a, err)
+				}
+				rep.Count("history:params-in-place", fmt.Sprintf("%s/%d/%d", s, net, step), true)
+				rp := map[string]interface{}{"string": s, "home_net": p.Name, "asked_net": q.Name, "position_in_sequence": step,
+					"history": "one chaincfg.Params variable overwritten in place with each network in turn and passed by the same pointer", "observed": o.JSON()}
+				canonical(s, net, o, "crossnet", rp)
+				same := q.CashAddressPrefix == p.CashAddressPrefix
+				if si == 2 {
+					same = q.SlpAddressPrefix == p.SlpAddressPrefix
+				}
+				if (o.Cls == 0) != same {
+					rep.Violate("C02:netsep:cash", "a cash-format string is accepted exactly on the networks that have its prefix; this call answered otherwise", rp)
+				} else if o.Cls == 0 && si < 2 && !o.Nets[net] {
+					rep.Violate("C02:isfornet:cash", "accepted cash-format (non-SLP) address is not for the network asked for", rp)
+				}
+			}
+		}
+	}
+}
+
+// crossNet decodes one canonical string of every kind on its own network and then, back to back, on every other
+// network and on its own again.  The answer may depend on the network asked for only: a cash-format string of
+// another network's prefix must be refused, a bare one is re-read under the asked network's prefix, a public
+// key takes the asked network's id, a legacy address is decoded alike everywhere.  (Results remembered from an
+// earlier call with another network would show here.)
+func crossNet(r *vh.RNG) {
+	for home := range al.Nets {
+		p := al.Nets[home].P
+		h20, h32 := r.Bytes(20), r.Bytes(32)
+		_, c, _ := al.RandomKey(r)
+		type item struct{ kind, s string }
+		items := []item{
+			{"cash-bare", al.RefCashAddr(p.CashAddressPrefix, 0, h20)},
+			{"cash-prefixed", p.CashAddressPrefix + ":" + al.RefCashAddr(p.CashAddressPrefix, 1, h20)},
+			{"cash-prefixed-upper", al.AsciiUpper(p.CashAddressPrefix + ":" + al.RefCashAddr(p.CashAddressPrefix, 1, h32))},
+			{"legacy-pkh", al.RefBase58Check(p.LegacyPubKeyHashAddrID, h20)},
+			{"legacy-sh", al.RefBase58Check(p.LegacyScriptHashAddrID, h20)},
+			{"pubkey", hex.EncodeToString(c)},
+		}
+		if p.SlpAddressPrefix != "" {
+			items = append(items, item{"slp-bare", al.RefCashAddr(p.SlpAddressPrefix, 0, h20)},
+				item{"slp-prefixed", p.SlpAddressPrefix + ":" + al.RefCashAddr(p.SlpAddressPrefix, 1, h32)})
+		}
+		for _, it := range items {
+			order := []int{home}
+			for d := 1; d < len(al.Nets); d++ {
+				order = append(order, (home+d)%len(al.Nets))
+			}
+			order = append(order, home)
+			for step, net := range order {
+				q := al.Nets[net].P
+				_, o := al.Decode(it.s, net)
+				rep.Count("crossnet:"+it.kind, fmt.Sprintf("%s/%d/%d", it.s, net, step), true)
+				rp := map[string]interface{}{"kind": it.kind, "string": it.s, "home_net": al.Nets[home].Name, "asked_net": al.Nets[net].Name,
+					"position_in_sequence": step, "sequence": "the same string decoded on its own network, then on each other network, then on its own again", "observed": o.JSON()}
+				canonical(it.s, net, o, "crossnet", rp)
+				samePrefixes := q.CashAddressPrefix == p.CashAddressPrefix
+				if strings.HasPrefix(it.kind, "slp") {
+					samePrefixes = q.SlpAddressPrefix == p.SlpAddressPrefix
+				}
+				switch it.kind {
+				case "cash-bare", "cash-prefixed", "cash-prefixed-upper", "slp-bare", "slp-prefixed":
+					if (o.Cls == 0) != samePrefixes {
+						rep.Violate("C02:netsep:cash", "a cash-format string is accepted exactly on the networks that have its prefix; this call answered otherwise", rp)
+					} else if o.Cls == 0 && !strings.HasPrefix(it.kind, "slp") && !o.Nets[net] {
+						rep.Violate("C02:isfornet:cash", "accepted cash-format (non-SLP) address is not for the network asked for", rp)
+					}
+				case "legacy-pkh", "legacy-sh":
+					if o.Cls != 0 || !bytes.Equal(o.Payload, h20) {
+						rep.Violate("C02:legacy:accept", "a legacy address with a registered version byte must decode alike on every network", rp)
+					} else {
+						for ni, n := range al.Nets {
+							id := n.P.LegacyPubKeyHashAddrID
+							if it.kind == "legacy-sh" {
+								id = n.P.LegacyScriptHashAddrID
+							}
+							home_id := p.LegacyPubKeyHashAddrID
+							if it.kind == "legacy-sh" {
+								home_id = p.LegacyScriptHashAddrID
+							}
+							if o.Nets[ni] != (id == home_id) {
+								rep.Violate("C02:legacy:nets", "accepted legacy address does not belong to exactly the nets whose version byte it carries", rp)
+							}
+						}
+					}
+				case "pubkey":
+					if o.Cls != 0 || o.Kind != 5 || !o.Nets[net] {
+						rep.Violate("C02:pubkey:isfornet", "a public key decoded for a network must report membership of that network", rp)
+					}
+				}
+			}
+		}
+	}
+}
+
 func main() {
 	cfg = vh.ParseFlags("C02")
 	rep = vh.NewReport(cfg)
@@ -491,6 +682,9 @@ func main() {
 	legacyFamilies(root.Fork("legacy"))
 	pubkeyFamilies(root.Fork("pubkey"))
 	malformed(root.Fork("malformed"))
+	crossNet(root.Fork("crossnet"))
+	legacyConstructed(root.Fork("legacy-constructed"))
+	histories(root.Fork("histories"))
 
 	if !cfg.Search {
 		_, err := ctx.Cases.Flush()
